@@ -7,7 +7,7 @@ PATCH="$1"; shift
 SLOT=${SLOT:-PRIV}; A=/verif/.build/agents/$SLOT
 [ -d $A/engine ] || /verif/tools/setup_agent.sh $SLOT >/dev/null
 export CARGO_NET_OFFLINE=true RUST_BACKTRACE=0 VERIF_DIR=$A/out VERIF_REPO=$A/repo VERIF_SCRATCH=$A/scratch VERIF_REAL_BIN=$A/bin-target/release/customasm
-cp /verif/known_findings.json $A/out/; mkdir -p $A/out/evidence
+cp /verif/known_findings.json $A/out/; mkdir -p $A/out/evidence; ln -sfn /verif/pyref $A/out/pyref
 git -C $A/repo checkout -q -- .
 if [ "$PATCH" != "none" ]; then
   if ! git -C $A/repo apply --check "$PATCH" 2>/dev/null; then echo "PATCH DOES NOT APPLY: $PATCH"; exit 3; fi
